@@ -166,7 +166,7 @@ func runL1Once(c Case, ev *evid.Collector) (vs []*evid.Violation, inconclusive s
 			return h
 		}),
 	)
-	ctx, cancel := context.WithTimeout(context.Background(), 90*time.Second)
+	ctx, cancel := context.WithTimeout(context.Background(), 240*time.Second)
 	defer cancel()
 
 	var lrs []*l1LR
@@ -283,7 +283,7 @@ func runL1Once(c Case, ev *evid.Collector) (vs []*evid.Violation, inconclusive s
 			break
 		}
 		if ctx.Err() != nil {
-			return nil, "watchdog: L1 case exceeded 90 s"
+			return nil, "watchdog: L1 case exceeded 240 s: " + caseJSON(c)
 		}
 	}
 	es := w.m.Entries()
